@@ -6,7 +6,7 @@ EXTENDS Sdl, Json, SdlSamples
 AllBodies == SUBSET {"command", "args", "env"}
 NoneAll   == {{}, {"command", "args", "env"}}
 AllKinds  == {"none", "http", "httphosts", "udp", "local", "two", "fan", "bare", "barehosts", "bareonly", "udp80", "as8080",
-              "svcglobal", "rev", "mix"}
+              "svcglobal", "rev", "mix", "twoglobal", "threeto", "dupglobal", "tomix"}
 \* documents the real Read must reject (conformance only)
 BadKinds  == {"badproto", "port0"}
 
